@@ -61,6 +61,17 @@ NOTES = {
  'C16-j1': 'missed at first; identity names containing the component KEY added; caught since',
  'C16-j2': 'missed at first; self_sign on 29 February of years whose +20 year is a leap year added to CertTime; caught since',
  'C18-j1': 'missed at first; the application may publish from inside the missing-data callback (re-entrancy); caught since',
+ 'C02-h1': 'missed at first (one verifier object per call); histories over several verifier objects whose key names coincide (NdnPacketsCheckHist); caught since. patch.diff is the change rebased by hand onto fix 83a1840 (the agent\'s file is patch-original.diff)',
+ 'C07-h1': 'missed at first; position of the ParametersSha256DigestComponent in the Name enumerated and the SignaturePtrs returned by the decoders compared with the strict reading; caught since',
+ 'C12-h2': 'missed at first; two packet nodes with identical signer lists and different bindings added to the generator; caught since',
+ 'C14-h1': 'missed at first; forgeries that re-use the SignatureValue of a packet validated earlier (replaypkt / replaycert), also on a fresh instance; caught since',
+ 'C16-h2': 'missed at first (the harness\' signer wrapper swallowed attribute writes); signer configuration read back after every issuing call; caught since',
+ 'C17-h2': 'missed at first (the registerer was always passed explicitly); default registerer path + a bystander application whose face must stay silent; caught since',
+ 'C18-h1': 'the check stopped with a machinery failure at first (a fresh instance that does not start in Init); now a violation, and every stage C process runs a sibling instance; caught since',
+}
+# seeded changes that were NOT kept as property-breaking after review
+REJECTED = {
+ 'C19-h1': 'not a violation under the joint reading of C05 and C19: the change makes the legacy front-end turn a validator that is still running at the Interest deadline into InterestTimeout (with a 100 ms floor) - which is what C05 demands (it repairs the known finding KF-legacy-slow-validator); segment_fetcher then re-requests the segment as for any timeout. C19\'s and C05\'s checks pass on it (C05 without the KNOWN-FINDING line).',
 }
 rows = []
 for d in sorted(glob.glob(ROOT + '/C*-[mnkjh]*')):
@@ -92,7 +103,8 @@ for d in sorted(glob.glob(ROOT + '/C*-[mnkjh]*')):
             'commands': ['dev/try_seed.sh %s %s' % (prop, sid.split('-')[1]),
                          'VERIF_REPO=<worktree with patch.diff applied> bin/check %s --tier quick' % prop],
         },
-        'check_result': 'caught' if own_viol > 0 else ('caught by another property\'s check' if caught else 'MISSED'),
+        'check_result': ('not kept: ' + REJECTED[sid]) if sid in REJECTED else
+                        'caught' if own_viol > 0 else ('caught by another property\'s check' if caught else 'MISSED'),
         'violation_replays': [v[1] for v in viol][:8],
         'history': NOTES.get(sid, ''),
     }
@@ -105,6 +117,7 @@ with open(os.path.join(ROOT, 'INDEX.md'), 'w') as f:
     for r in rows:
         f.write('| %s | %s | %s | %s |\n' % (r['id'], r['check_result'], (r['violation_replays'] or ['-'])[0][:90], r['history']))
     n = sum(1 for r in rows if r['check_result'].startswith('caught'))
-    f.write('\n%d of %d caught by the quick tier at the time this index was generated.\n' % (n, len(rows)))
+    k = sum(1 for r in rows if r['check_result'].startswith('not kept'))
+    f.write('\n%d of %d kept changes caught by the quick tier at the time this index was generated (%d not kept after review).\n' % (n, len(rows) - k, k))
 print(sum(1 for r in rows if r['check_result'].startswith('caught')), len(rows))
 print([r['id'] for r in rows if not r['check_result'].startswith('caught')])
